@@ -15,22 +15,42 @@ import harness.common as hc
 from harness.common import Ck, coq_list
 
 MANIFEST = dict(
-    technique='Rocq proof (heap frame theorem over all mutation histories, kernel-checked separation certificates for '
-              'exported real object graphs, copy census obligations) + ast census of every copy() + oracle search',
-    text='Theorems in Props/C09.v: in a heap of mutable/immutable nodes, if no mutable location is reachable both from '
-         'object a and from the roots a mutator holds, no sequence of stores/allocations through those roots changes the '
-         'unfolding (export) of a, and vice versa; a certificate checker for finite heaps is sound for that premise; a copy '
-         'built field by field according to a census all of whose (kind, how) pairs pass field_fresh is separated from '
-         'its original; observational equality composes over covered fields; Keyvalues.__add__ is pure iff every append '
-         'goes to the copy. Tie: translate/c09_copy.py regenerates the census of every copy()/__copy__/__deepcopy__/'
-         'copy_values/__add__/__iadd__/extend from vmf.py and keyvalues.py (instance obligations per class); the '
-         'object graphs of generated originals and their copies are exported from the running implementation and the '
-         'separation certificate is checked in the kernel; search: identity walk, export equality modulo IDs, random '
-         'in-place mutation histories on either side, collapse of instances, operand snapshots for every operator.',
-    note='Trusted: Coq kernel + vm_compute, translate/c09_copy.py, harness/c09_util.py (graph walker: __slots__, '
-         '__dict__, containers; the VMF back pointer is context and is not followed), CPython object identity. The map '
-         'back pointer and everything reached only through it (ID managers, by_class/by_target indexes) are outside the '
-         'model (C07/C08). Float rounding is irrelevant here (bit-exact snapshots). Cython twins are not exercised.',
+    technique='Rocq proof (heap frame theorem over all mutation histories; copy census with sources => independence; '
+              'per-class export-equality theorem over masked unfoldings; operator-purity and collapse_one frame theorems '
+              'as instances of the frame theorem; kernel-checked separation certificates for exported real object graphs) '
+              '+ five fail-closed ast translators (copy census with source fields, export reads, Keyvalues +/+= append '
+              'sites, math.py operator write/return origins, collapse_one write/enter/copy sites) + oracle search',
+    text='Theorems in Props/C09.v (no axioms). Independence: in a heap of mutable/immutable nodes, if no mutable location '
+         'is reachable both from object a and from the roots a mutator holds, no sequence of stores/allocations through '
+         'those roots changes the unfolding (export) of a, and vice versa; a certificate checker for finite heaps is sound '
+         'for that premise; a copy built field by field according to a census all of whose (kind, how) pairs pass '
+         'field_fresh AND whose fields are each built from their own source field (copy_sources_match) is separated from '
+         'its original. Completeness: c09_copy_export_equal — if every field the class\'s export reads (generated '
+         'export_reads_X) is carried over from its own field (share / fresh container of the same elements / nested copy '
+         'that itself exports equally) the copy\'s masked unfolding (IDs, map pointer and unread fields masked) equals the '
+         'original\'s at every depth; refuted for a wrong source field. Keyvalues + / +=: pure, complete and every '
+         'appended child a fresh copy iff the receiver and the copied-flag of each append site (one per branch) are right. '
+         'Operators: a run none of whose stores is tagged with an operand origin leaves every pre-existing object '
+         'unchanged and returns only new objects; in-place operators leave everything separated from the receiver '
+         'unchanged. Instancing: a collapse_one run with no template-tagged store or stored value leaves the template '
+         'unchanged. Tie (every run): translators regenerate the five Gen tables from vmf.py, keyvalues.py, math.py, '
+         'instancing.py; ~110 named instance obligations (per class: copy_covers_fields, copy_fresh_mutables, '
+         'copy_sources_match, copy_export_equal, export_reads_are_fields; per kv branch; per operator family; '
+         'collapse_*); census vs run-time identities, export reads vs traced attribute reads, operator rows vs real '
+         'calls, kv model vs implementation; exported real object graphs certified in the kernel. Search: identity '
+         'walk, export equality modulo IDs, random in-place mutation histories on either side, instance collapse with '
+         'proxies followed by edits of the target, operand snapshots for every operator.',
+    note='Trusted: Coq kernel + vm_compute; the translators\' classification of Python expressions into census rows (each '
+         'cross-checked dynamically: census_vs_runtime, export_reads_vs_runtime, op_census_vs_runtime, kv_add '
+         'correspondence) and the reading of a census row as its heap meaning (how_sem / how_complete / tstep / cstep: '
+         'stated in the theorems, not derived from Python semantics); harness/c09_util.py (graph walker: __slots__, '
+         '__dict__, containers; the VMF back pointer is context and is not followed); CPython object identity. '
+         'Completeness is proved relative to "export is a function of the fields it reads" (reads census is static, '
+         'over-approximation checked against traced reads); HDeep fields take the nested class\'s own theorem as '
+         'hypothesis (all_classes_export_ok discharges it for every class of the table). The map back pointer and '
+         'everything reached only through it (ID managers, by_class/by_target indexes) are outside the model (C07/C08). '
+         'Float rounding is irrelevant here (bit-exact snapshots). Cython twins are not exercised. Immutable shared '
+         'values (str, tuples, frozen objects) are atoms of the heap model.',
 )
 
 IMPORTS = ['Coq.Lists.List', 'Coq.Bool.Bool', 'Coq.ZArith.ZArith', 'Coq.Strings.String', 'SV.SM.Store', 'SV.SM.StoreCert',
@@ -830,9 +850,17 @@ def run(ck: Ck) -> None:
                'points, visgroup trees, Keyvalues trees ...); non-trivial = the object graph has at least 3 nodes; each case '
                'is followed by a random history of 3-12 in-place mutations (public API and generic stores into any reachable '
                'mutable object) on either side; operators: every (op, lhs type, rhs type, values) over Vec/Angle/Matrix and '
-               'frozen twins, scalars and tuples; Keyvalues +/+=/extend with list/root/block/generator operands; instance '
-               'collapse of generated templates; distinct by full case tuple')
+               'frozen twins, scalars and tuples, plus every row of the operator census called with 12 probe arguments; '
+               'Keyvalues +/+=/extend with list/root/block/generator operands; instance collapse of generated templates '
+               '(half of them with an io_proxy, instance inputs and outputs) twice, then 6 edits of the target map; export '
+               'read traces of generated objects of every kind; distinct by full case tuple')
     ck.trusted.append('harness/c09_util.py object-graph walker (slots, __dict__, containers); the VMF back pointer is context')
+    ck.trusted.append('translate/c09_copy.py, c09_export.py, c09_ops.py, c09_collapse.py: classification of Python expressions into '
+                      'census rows (fail-closed; each census is compared with run-time behaviour on every run)')
+    ck.assumptions.append('a census row means its heap relation (how_sem / how_complete, tstep / cstep tags): the theorems are '
+                          'stated over these relations; immutable shared values (str, tuple, frozen objects) are atoms')
+    ck.assumptions.append('export is a function of the data fields it reads (export_reads census, static over-approximation '
+                          'of the traced reads); IDs and the map back pointer are masked in the export comparison')
     ck.assumptions.append('the map back pointer (Entity.map, Solid.map, Side.map, VisGroup.vmf ...) is context: mutations '
                           'performed through the map (ID managers, indexes, entity lists) are outside C09 (see C07/C08)')
     ck.assumptions.append('observation = export text (Entity/Solid/Side/VisGroup/EntityGroup/Camera/Cordon/Output/EntityFixup '
@@ -889,6 +917,7 @@ def run(ck: Ck) -> None:
         obs['collapse_copies_are_censused'] = ('collapse_copies_censused collapse_copies (List.map fst all_census) && '
                                                'Nat.eqb (List.length collapse_copies) %d' % len(cside.get('copies', [])))
         obs['collapse_census_size'] = 'Nat.leb 20 (List.length collapse_writes) && Nat.leb 10 (List.length collapse_enters)'
+        obs['all_classes_export_ok'] = 'all_export_ok'
         obs['all_sources_present'] = 'Nat.eqb (List.length all_sources) %d && all_sources_match' % len(side.get('classes', []))
         obs['all_classes_present'] = 'Nat.eqb (List.length all_census) %d' % len(side.get('classes', []))
         res = ck.instance_obligations(IMPORTS, obs)
@@ -953,6 +982,7 @@ def run(ck: Ck) -> None:
             ck.explain(f'instance:{b}_branch_appends_copy')
     if any_key('copy-incomplete:'):
         ck.explain('instance:all_sources_present')
+        ck.explain('instance:all_classes_export_ok')
     if any_key('shared-mutable:', 'mutation-visible:'):
         ck.explain('certificate:export_ok')
     if any_key('instance-collapse-changes-template:', 'instance-'):
